@@ -46,6 +46,8 @@ class Gen:
 
     def int_type(self):
         r = self.rng
+        if self.style == "panic":
+            return r.choice(["u8", "u8", "i8", "i8", "u16", "i16", "u8", "i8", "u32", "usize"])
         return r.choice(["u8", "u8", "i8", "u16", "i16", "u32", "i32", "u64", "i64", "usize"])
 
     def small_type(self, depth=0):
@@ -325,6 +327,9 @@ class Gen:
         env = list(env)
         for _ in range(n):
             x = r.random()
+            if self.style == "mutation":
+                # fewer plain lets, more let mut / assignments / control flow
+                x = x * 0.9 + 0.1 if x > 0.1 else x * 2.5 if x < 0.04 else 0.3 + x
             if x < 0.25:
                 t = self.small_type()
                 name = self.fresh()
